@@ -575,6 +575,119 @@ def rule_declaration_lookup(ctx):
     ctx.floor(rule, "call expressions inspected", n, 5000)
 
 
+# every way the interpreter (eval.rs, link.rs) can stop with a panic, and the checker-side guarantee that excludes it.
+# key = <function>:<kind>:<message>; value = (count, guarantee)
+STUCK = {
+    "Computation::step:expect:pattern match failed in function": (1, "binder-coverage: fn binders are irrefutable"),
+    "Computation::step:expect:pattern match failed in return": (1, "binder-coverage: do binders are irrefutable"),
+    "Computation::step:expect:pattern match failed in let": (1, "binder-coverage: let binders are irrefutable"),
+    "Computation::step:expect:pattern match failed in fix": (1, "binder-coverage + shape-assumptions: the fix binder is validated and typed `Thk _`"),
+    "Value::step:expect:pattern match failed in value let": (1, "binder-coverage (Value::Let)"),
+    "Value::step:expect:pattern match failed in pure function": (1, "binder-coverage (Value::VAbs)"),
+    "Computation::step:panic:no matching arm": (1, "coverage-validator: an accepted match is exhaustive (C04)"),
+    "Computation::step:expect:no matching arm": (1, "coverage-validator: an accepted comatch has an arm per destructor (C04)"),
+    "Computation::step:panic:Hole in computation": (1, "typed-hole (known finding F7)"),
+    "Value::step:panic:Hole in value": (1, "typed-hole (known finding F7)"),
+    "Value::step:expect:variable does not exist": (1, "scoping: every variable of a resolved program has its binder on the path (C07)"),
+    "Computation::step:panic:App not at stacktop": (1, "typing (progress): a function is only run under an application frame; NOT decided"),
+    "Computation::step:panic:Kont not at stacktop": (1, "typing (progress): ret only under a do frame; NOT decided"),
+    "Computation::step:panic:Force on non-thunk": (1, "typing (progress): `!` only at Thk types; NOT decided"),
+    "Computation::step:panic:Comatch on non-Dtor": (1, "typing (progress): comatch only under a destructor frame; NOT decided"),
+    "Computation::step:panic:Prim on non-Dtor": (1, "typing (progress) + C06 role tables"),
+    "Value::step:panic:Value application on non-closure": (1, "typing (progress); NOT decided"),
+    "Value::step:assert:type-checked product projection must have a matching field": (1, "typing of projections (F11 repaired)"),
+    "Assign::step:unreachable:internal error: entered unreachable code": (2, "host values are opaque: never matched by a pattern (typing)"),
+    "into_product_fields:unreachable:internal error: entered unreachable code: only products have product fields": (1, "typing of product patterns"),
+    "from_product_fields:unwrap:": (1, "dominated by the length test of the same vector"),
+    "from_product_fields:expect:non-empty product fields": (1, "product arity >= 2 by construction of ConsN"),
+    "ValueId::link:mir-assert:overflow:Add": (1, "position + 1 of a component of a source product: bounded by the product's arity"),
+    "ProductArity::of:mir-assert:overflow:Add": (1, "number of components of a source product"),
+    "VPatId::link:unwrap:": (1, "link: the erased pattern list is non-empty by the typed arity"),
+    "BuiltinPackageLinker::link:expect:a checked product plan is non-empty": (1, "BuiltinPackagePlan is validated (gate)"),
+    "CompuId::link:index:ArenaSparse": (1, "every id reachable from a checked root is in the arena (stripped-arena, C10)"),
+    "VPatId::link:index:ArenaSparse": (1, "as above"),
+    "ValueId::link:index:ArenaSparse": (1, "as above"),
+}
+
+
+def _short_owner(fn):
+    def strip_generics(t):
+        prev = None
+        while prev != t:
+            prev = t
+            t = re.sub(r"<[^<>]*>", "", t)
+        return t
+    if fn.startswith("<") and " as " in fn:
+        ty = strip_generics(fn[1:fn.index(" as ")]).split("::")[-1]
+        return "%s::%s" % (ty, fn.rsplit("::", 1)[-1])
+    parts = strip_generics(fn).split("::")
+    return "::".join(parts[-2:]) if len(parts) > 1 and parts[-2][:1].isupper() else parts[-1]
+
+
+def rule_stuck_states(ctx):
+    rule = "stuck-states"
+    facts = ctx.facts
+    ctx.rule(rule, "the interpreter and the linker (zydeco_dynamics::eval, ::link) can stop with a panic only at the inventoried sites "
+                   "(panic! / unreachable! / assert! / expect / unwrap / panicking index / arithmetic or bounds assert), each tied to "
+                   "the checker-side rule that excludes it; a new site is a new undefined machine state an accepted program may reach")
+    seen = {}
+    locs = {}
+
+    def lits(n):
+        return [x.get("str") if isinstance(x, dict) else x for y in H.walk(n) if H.kind(y) == "Lit" for x in [y.get("v") or y.get("lit") or y.get("s")]]
+    n_fns = 0
+    for fn, bd in sorted(facts.bodies().items()):
+        if not (fn.startswith("zydeco_dynamics::eval") or "as zydeco_dynamics::eval::" in fn
+                or fn.startswith("zydeco_dynamics::link") or "as zydeco_dynamics::link::" in fn):
+            continue
+        if "::tests::" in fn:
+            continue
+        owner = _short_owner(fn.split("::{closure")[0])
+        if "{closure" not in fn:
+            h = facts.hir(fn)
+            if h:
+                n_fns += 1
+                for x in H.walk(h["body"]):
+                    k = H.kind(x)
+                    key = None
+                    if k == "MethodCall" and x["name"] in ("expect", "unwrap") and re.search(r"(Option|Result)<", x.get("recv_ty") or ""):
+                        msg = (lits(x["args"][0]) or [""])[0] if x["args"] else ""
+                        key = "%s:%s:%s" % (owner, x["name"], msg or "")
+                    elif k == "Call" and (H.callee(x) or "").startswith(("core::panicking::", "std::rt::begin_panic")):
+                        ex = x.get("expn") or []
+                        kind = "unreachable" if "unreachable" in ex else "assert" if "assert" in ex else "panic"
+                        msg = ([l for a in x["args"] for l in lits(a)] or [""])[0]
+                        key = "%s:%s:%s" % (owner, kind, msg or "")
+                    elif k == "Index":
+                        base = x.get("base") if isinstance(x.get("base"), dict) else x.get("e") if isinstance(x.get("e"), dict) else {}
+                        t = (base.get("ty") or "?")
+                        key = "%s:index:%s" % (owner, t.split("<")[0].split("::")[-1].replace("&", ""))
+                    if key:
+                        seen[key] = seen.get(key, 0) + 1
+                        locs.setdefault(key, [bd["loc"][0], x.get("ln")])
+        m = facts.mir(fn)
+        if m is not None:
+            b = M.Body(fn, m)
+            for bb in range(b.n):
+                t = b.term(bb)
+                if t["k"] == "assert" and not b.is_cleanup(bb) and t.get("msg") != "other":  # "other" = compiler-inserted pointer checks
+                    key = "%s:mir-assert:%s" % (owner, t.get("msg"))
+                    seen[key] = seen.get(key, 0) + 1
+                    locs.setdefault(key, [bd["loc"][0], t.get("ln")])
+    for key, cnt in sorted(seen.items()):
+        want = STUCK.get(key)
+        if want is None or cnt > want[0]:
+            ctx.violation(rule, key + (":extra" if want else ""), "the interpreter / linker can stop at a site that is not in the audited "
+                          "inventory of stuck states (%s, %d site(s), %d audited): an accepted program may reach it unless a checker rule "
+                          "excludes it" % (key, cnt, want[0] if want else 0), locs[key])
+        else:
+            ctx.ok(rule, key, {"excluded_by": want[1], "sites": cnt})
+    for key in sorted(set(STUCK) - set(seen)):
+        ctx.ok(rule, key + ":gone", {"note": "inventoried site no longer present"})
+    ctx.floor(rule, "interpreter / linker functions inspected", n_fns, 10)
+    ctx.floor(rule, "stuck-state sites classified", sum(seen.values()), 20)
+
+
 def rule_judgments(ctx):
     """every sub-term / sub-pattern of every former is handed to a checking judgment (R-TRAV on the checker itself)"""
     from .. import trav
@@ -659,6 +772,7 @@ def run(ctx):
     rule_expected_type(ctx)
     rule_branch_join(ctx)
     rule_declaration_lookup(ctx)
+    rule_stuck_states(ctx)
     from . import c04
     from .. import golden
     ctx.rule("coverage-validator", "the validator that makes `no matching arm` and `pattern match failed` unreachable performs its audited "
